@@ -118,7 +118,7 @@ impl AsRef<[u32]> for SmtString {
 /// ```
 impl From<&str> for SmtString {
     fn from(x: &str) -> Self {
-        SmtString::make(x.chars().map(|c| c as u32).collect())
+        SmtString::make(x.chars().map(char_to_code).collect())
     }
 }
 
@@ -182,7 +182,18 @@ impl From<u32> for SmtString {
 ///
 impl From<char> for SmtString {
     fn from(x: char) -> SmtString {
-        SmtString::make(vec![x as u32])
+        SmtString::make(vec![char_to_code(x)])
+    }
+}
+
+// Code of a Rust character as an SMT character:
+// characters outside the SMT-LIB range [0, 0x2ffff] are replaced by 0xfffd
+fn char_to_code(x: char) -> u32 {
+    let x = x as u32;
+    if x <= MAX_CHAR {
+        x
+    } else {
+        REPLACEMENT_CHAR
     }
 }
 
@@ -222,7 +233,7 @@ fn new_automaton() -> ParsingAutomaton {
 impl ParsingAutomaton {
     // add char x to the string so far
     fn push(&mut self, x: char) {
-        self.string_so_far.push(x as u32);
+        self.string_so_far.push(char_to_code(x));
     }
 
     // add char x to the pending array
